@@ -11,9 +11,9 @@ EVIDENCE = os.environ.get("VERIF_EVIDENCE_DIR") or os.path.join(VERIF, "evidence
 REPLAYS = os.path.join(EVIDENCE, "replays")
 KNOWN = os.path.join(VERIF, "known_findings.json")
 
-QUICK_UNITS = ["core17", "match17", "coro20", "print17"]
+QUICK_UNITS = ["core17", "match17", "coro20", "print17", "cpp11"]
 THOROUGH_UNITS = ["core14", "core17", "core20", "match14", "match17", "match20", "coro20",
-                  "print17", "repo_ct14", "repo_ct11", "repo_tt", "repo_crm", "repo_co20"]
+                  "print17", "cpp11", "repo_ct14", "repo_ct11", "repo_tt", "repo_crm", "repo_co20"]
 
 
 class Ob:
